@@ -30,7 +30,11 @@ META = dict(
          "integers into ints (1.0, 1e2), numeric strings without `,string`, numbers with `,string`, \"true\" into "
          "bool, decimal fractions a binary float only approximates (value = correctly rounded float), uint64 above "
          "2^63-1, Duration from text sources and inside containers, absent required containers (absent = empty "
-         "tolerated), any field with env= set (value of the variable, the document's value or an error). Only "
+         "tolerated), any field with env= set (value of the variable - subject to options=/range= like any value - "
+         "the document's value or an error), zero-padded decimal strings (\"010\": refused or the decimal reading 10, "
+         "never 8), Go-syntax spellings (\"0x1F\", \"0b11\", \"0o17\", \"1_000\": refused or the number the spelling "
+         "denotes, because the statement does not fix the numeric syntax of text values; float kinds: no panic only), "
+         "a default outside the field's own range=/options= (contradictory tag: the default or an error). Only "
          "panic-freedom is checked for null, a bare number or unit-less numeric string into a Duration, a number "
          "into a string field, 0/1 into a bool. Not claimed: JSON = YAML for null / empty YAML values (the YAML "
          "bridge hands them on as the string \"\", inherited behaviour) and for 1e400 (a string in YAML); Duration "
@@ -42,7 +46,9 @@ META = dict(
          "two-call family aliasing between a caller-supplied map and the result (every call gets a freshly rendered "
          "document) and one default text shared by a []string and a []bool field (the process-wide cache of parsed "
          "slice defaults is keyed by the text alone: `[]bool default=[true]` used first makes `[]string "
-         "default=[true]` fail with a type mismatch - inherited behaviour, observed, not generated); native Go values (int, "
+         "default=[true]` fail with a type mismatch - inherited behaviour, observed, not generated); env=V with V=0 "
+         "(option set env_0 exists but is not in the plan: an int64 field panics because every Int64 is taken for a "
+         "Duration - /tmp/fixes/C05-5.patch); native Go values (int, "
          "float64) inside the map given to UnmarshalKey (json.Number is used, as the JSON layer produces). int and "
          "uint are taken as 64 bit. The numeric axioms of the specification (order of Points, literal attributes, "
          "kind bounds) are re-derived by the driver with math/big / strconv on every run (mismatch = exit 2). "
@@ -74,7 +80,7 @@ L = {"0": 1, "1": 2, "2": 3, "5": 4, "7": 5, "10": 6, "-1": 7, "127": 8, "128": 
 # "env_0" (env=V with V=0) is defined in the generator but left out of the plan: on an int64 field it makes
 # processFieldWithEnvValue panic (its switch takes every Int64 for a Duration; "0" is the one unit-less text
 # time.ParseDuration accepts) - reported with /tmp/fixes/C05-5.patch; add it to COMBO once that fix is in /repo.
-COMBO = ["env_0", "er_m1", "er_1", "er_5", "er_7", "er_300", "eoc_1", "eoc_5", "eo_1", "eo_7", "defz", "defrout", "defoout"]
+COMBO = ["er_m1", "er_1", "er_5", "er_7", "er_300", "eoc_1", "eoc_5", "eo_1", "eo_7", "defz", "defrout", "defoout"]
 NUMK = [k for k in ALLK if k not in ('"bool"', '"string"', '"duration"')]
 ESC = ("hello world", "100%", "a+b", "x&y=z?w#v", "nihao", 'say "hi"')
 
